@@ -272,8 +272,28 @@ pub fn replay<E: Engine>(engine: &E, doc: &Value, path: &Path, verif_dir: &Path)
         worker: 0,
         scratch: scratch_dir(verif_dir, 0),
     };
-    let mut c = Counters::default();
-    let out = engine.execute(&case, &ctx, &mut c);
+    let hang_secs: u64 = std::env::var("VERIF_HANG_SECS").ok().and_then(|s| s.parse().ok()).unwrap_or(240);
+    let done = std::sync::atomic::AtomicBool::new(false);
+    let out = std::thread::scope(|s| {
+        let done = &done;
+        let id = engine.id();
+        let p = path.to_path_buf();
+        s.spawn(move || {
+            let t0 = Instant::now();
+            while !done.load(Ordering::SeqCst) {
+                std::thread::sleep(std::time::Duration::from_millis(200));
+                if t0.elapsed().as_secs() >= hang_secs {
+                    println!("replay: violation signature=hang:run_did_not_finish (no result within {hang_secs} s)");
+                    println!("VIOLATION property={id} replay={}", p.display());
+                    std::process::exit(1);
+                }
+            }
+        });
+        let mut c = Counters::default();
+        let out = engine.execute(&case, &ctx, &mut c);
+        done.store(true, Ordering::SeqCst);
+        out
+    });
     cleanup_scratch(verif_dir);
     let want_sig = doc["violation"]["signature"].as_str().unwrap_or("");
     let want_digest = doc["trace_digest"].as_str().unwrap_or("");
@@ -352,14 +372,76 @@ pub fn run_batch<E: Engine>(engine: &E, opt: &Options) -> i32 {
         opt.seed
     );
 
+    let inflight: Vec<AtomicU64> = (0..workers).map(|_| AtomicU64::new(0)).collect();
+    let finished_runs = AtomicU64::new(0);
+    let batch_done = std::sync::atomic::AtomicBool::new(false);
+    let hang_secs: u64 = std::env::var("VERIF_HANG_SECS").ok().and_then(|s| s.parse().ok()).unwrap_or(240);
+
     std::thread::scope(|s| {
-        for w in 0..workers {
-            let results = &results;
-            let next = &next;
+        // watchdog: code under test that never returns (and has no scheduling
+        // point the simulator could use to detect it) must not hang the check
+        {
+            let inflight = &inflight;
+            let finished_runs = &finished_runs;
+            let batch_done = &batch_done;
             let verif_dir = opt.verif_dir.clone();
             let tier = opt.tier;
             let seed = opt.seed;
             s.spawn(move || {
+                let mut last = 0u64;
+                let mut since = Instant::now();
+                loop {
+                    std::thread::sleep(std::time::Duration::from_millis(500));
+                    if batch_done.load(Ordering::SeqCst) {
+                        return;
+                    }
+                    let now = finished_runs.load(Ordering::SeqCst);
+                    if now != last {
+                        last = now;
+                        since = Instant::now();
+                        continue;
+                    }
+                    if since.elapsed().as_secs() >= hang_secs {
+                        let mut printed = false;
+                        for w in inflight.iter() {
+                            let v = w.load(Ordering::SeqCst);
+                            if v == 0 {
+                                continue;
+                            }
+                            let i = v - 1;
+                            let run_seed = mix(seed, tag, i);
+                            let mut rng = Rng::new(run_seed);
+                            let case = engine.generate(&mut rng, tier);
+                            let v = Violation {
+                                signature: "hang:run_did_not_finish".into(),
+                                step: 0,
+                                detail: format!("run {i} did not finish within {hang_secs} s"),
+                            };
+                            let path = write_replay(engine, &verif_dir.join("replays"), run_seed, &case, &v, 0, 0);
+                            println!("violation: signature=hang:run_did_not_finish run={i} seed={run_seed}");
+                            println!("VIOLATION property={} replay={}", engine.id(), path.display());
+                            printed = true;
+                        }
+                        if !printed {
+                            eprintln!("HARNESS-ERROR: no progress for {hang_secs} s and no run in flight");
+                            std::process::exit(2);
+                        }
+                        cleanup_scratch(&verif_dir);
+                        std::process::exit(1);
+                    }
+                }
+            });
+        }
+        let mut worker_handles = vec![];
+        for w in 0..workers {
+            let results = &results;
+            let next = &next;
+            let inflight = &inflight;
+            let finished_runs = &finished_runs;
+            let verif_dir = opt.verif_dir.clone();
+            let tier = opt.tier;
+            let seed = opt.seed;
+            worker_handles.push(s.spawn(move || {
                 let ctx = WorkerCtx {
                     worker: w,
                     scratch: scratch_dir(&verif_dir, w),
@@ -383,7 +465,10 @@ pub fn run_batch<E: Engine>(engine: &E, opt: &Options) -> i32 {
                         let run_seed = mix(seed, tag, i);
                         let mut rng = Rng::new(run_seed);
                         let case = engine.generate(&mut rng, tier);
+                        inflight[w].store(i + 1, Ordering::SeqCst);
                         let out = engine.execute(&case, &ctx, &mut r.counters);
+                        inflight[w].store(0, Ordering::SeqCst);
+                        finished_runs.fetch_add(1, Ordering::SeqCst);
                         r.evaluations += 1;
                         let mut x = out.digest ^ i.wrapping_mul(0x9E37_79B9_7F4A_7C15);
                         r.batch_digest = r.batch_digest.wrapping_add(splitmix64(&mut x));
@@ -425,8 +510,12 @@ pub fn run_batch<E: Engine>(engine: &E, opt: &Options) -> i32 {
                     }
                 }
                 results.lock().unwrap().push(r);
-            });
+            }));
         }
+        for h in worker_handles {
+            let _ = h.join();
+        }
+        batch_done.store(true, Ordering::SeqCst);
     });
 
     // ---- reduce (order independent) ----
